@@ -277,12 +277,14 @@ def judge_history(h, S, H, M, V, stats, tie_diffs, distinct):
             fail = ('above', 'a record count above anything written: %s hdr=%d, written %d' % (rnr, rhdr, m['hi']))
         if fail:
             stats['prop_fail'] = stats.get('prop_fail', 0) + 1
-            if name in ('waitAll', 'wait') and fail[0] in ('incoherent', 'own') and ' L' in op:
+            # a known finding is a failure the faithful model reproduces exactly; anything the model does not predict is new
+            agrees = (rnr == m['nr'] and rhdr == m['hdr'])
+            if agrees and name in ('waitAll', 'wait') and fail[0] in ('incoherent', 'own') and ' L' in op:
                 sig = 'partial-wait-numrecs-not-updated'
-            elif name == 'vardAll' and ' N ' in op and fail[0] == 'incoherent' and rnr[0] > m['hi']:
+            elif agrees and name == 'vardAll' and ' N ' in op and fail[0] == 'incoherent' and rnr[0] > m['hi']:
                 sig = 'vard-nodata-advances-numrecs'
             else:
-                sig = 'numrecs-%s:%s' % (fail[0], name)
+                sig = 'numrecs-%s:%s%s' % (fail[0], name, '' if agrees else ':not-predicted-by-model')
             ctx['observed'] = dict(ranks=rnr, header=rhdr, specified=m['hi'], own=m['own'])
             V.failing_input(sig, fail[1], ctx)
             return evaluated          # later calls of this history start from a wrong state
